@@ -767,6 +767,226 @@ def text_attribute_boundary(fail, quick, covered_attrs):
     return n
 
 
+# ------------------------------------------------------------------------------- (D) VPLS / RTC / EVPN framing / attribute values
+
+HEADER_X = """From Coq Require Import ZArith Bool List.
+From ExaV Require Import gen.Gen_NlriRegistry model.Model_Nlri model.Model_Attr model.Model_NlriX.
+Import ListNotations. Open Scope Z_scope.
+Definition ob_eqb (a b : option (list Z * list Z)) : bool :=
+  match a, b with None, None => true | Some (p, r), Some (p', r') => list_eqb p p' && list_eqb r r' | _, _ => false end.
+Definition vpls_eqb (a b : vpls) : bool :=
+  list_eqb (v_rd a) (v_rd b) && (v_ve a =? v_ve b) && (v_off a =? v_off b) && (v_size a =? v_size b) && (v_base a =? v_base b).
+Definition vpls_enc_ok (c : vpls * list Z * list Z) : bool :=
+  match c with (v, bytes, idx) => list_eqb (make_vpls v) bytes && vpls_eqb (vpls_fields bytes) v && list_eqb (vpls_index bytes) idx end.
+Definition vpls_dec_ok (c : list Z * option (list Z * list Z)) : bool := match c with (d, e) => ob_eqb (unpack_vpls d) e end.
+Definition oz_eqb (a b : option (list Z)) : bool :=
+  match a, b with None, None => true | Some x, Some y => list_eqb x y | _, _ => false end.
+Definition rtc_enc_ok (c : Z * option (list Z) * list Z * list Z) : bool :=
+  match c with (o, rt, bytes, idx) =>
+    list_eqb (make_rtc o rt) bytes && (rtc_origin bytes =? (match rt with Some _ => o | None => 0 end))
+    && oz_eqb (rtc_rt bytes) (match rt with Some (r0 :: r) => Some (reset_flags r0 :: r) | _ => None end)
+    && list_eqb (rtc_index bytes) idx end.
+Definition rtc_dec_ok (c : list Z * option (list Z * list Z)) : bool := match c with (d, e) => ob_eqb (unpack_rtc d) e end.
+(* strict: unregistered route type, the framing is the whole decoder; otherwise the type-specific checks
+   may refuse more, but never accept something the framing refuses or store other bytes *)
+Definition evpn_dec_ok (c : bool * list Z * option (list Z * list Z)) : bool :=
+  match c with (strict, d, e) =>
+    if strict then ob_eqb (unpack_evpn_frame d) e
+    else match e with None => true | Some _ => ob_eqb (unpack_evpn_frame d) e end end.
+Definition nums_dec_ok (c : nat * list Z * option (list Z)) : bool :=
+  match c with (w, d, e) => oz_eqb (dec_nums (length d) w d) e end.
+Definition agg_dec_ok (c : bool * list Z * option (Z * list Z)) : bool :=
+  match c with (asn4, d, e) =>
+    match dec_aggregator asn4 d, e with
+    | None, None => true | Some (a, ip), Some (a', ip') => (a =? a') && list_eqb ip ip' | _, _ => false end end.
+Definition orig_dec_ok (c : list Z * option (list Z)) : bool := match c with (d, e) => oz_eqb (dec_originator d) e end.
+Fixpoint bad {A} (f : A -> bool) (l : list A) (i : nat) : list nat :=
+  match l with [] => [] | c :: l' => if f c then bad f l' (S i) else i :: bad f l' (S i) end.
+"""
+
+
+def _coq_ob(r):
+    return 'None' if r is None else f'(Some ({zlist(r[0])}, {zlist(r[1])}))'
+
+
+def structured_pass(run, rng, quick, conf_nlris):
+    """correspondence of Model_NlriX with the real VPLS / RTC / EVPN classes and the attribute value decoders"""
+    from exabgp.bgp.message import Action
+    from exabgp.bgp.message.notification import Notify
+    from exabgp.bgp.message.open.asn import ASN
+    from exabgp.bgp.message.open.capability.negotiated import Negotiated
+    from exabgp.bgp.message.update.attribute.attribute import Attribute
+    from exabgp.bgp.message.update.attribute.community.extended import RouteTarget
+    from exabgp.bgp.message.update.nlri.evpn.nlri import EVPN
+    from exabgp.bgp.message.update.nlri.nlri import NLRI
+    from exabgp.bgp.message.update.nlri.qualifier import RouteDistinguisher
+    from exabgp.bgp.message.update.nlri.rtc import RTC
+    from exabgp.bgp.message.update.nlri.vpls import VPLS
+    from exabgp.protocol.family import AFI, SAFI
+
+    neg = Negotiated.UNSET
+    n = 300 if quick else 6000
+
+    def unpack(afi, safi, data):
+        try:
+            o, rest = NLRI.unpack_nlri(afi, safi, bytes(data), Action.ANNOUNCE, None, neg)
+            return (list(bytes(o._packed)), list(bytes(rest))), o
+        except Notify:
+            return None, None
+
+    problems = []
+    # ---- VPLS
+    vpls_enc, vpls_dec = [], []
+    vals = [(0, 0, 0, 0), (65535, 65535, 65535, 1048575), (5, 1, 8, 10702), (1, 0, 1, 1)]
+    while len(vals) < n // 3:
+        vals.append((rng.getrandbits(16), rng.getrandbits(16), rng.getrandbits(16), rng.choice([0, 1, 15, 16, 1048575, rng.getrandbits(20)])))
+    objs = []
+    for ve, off, size, base in vals:
+        rd = rand_rd(rng)
+        o = VPLS.make_vpls(RouteDistinguisher(bytes(rd)), ve, base, off, size)
+        objs.append(o)
+        vpls_enc.append(((rd, ve, off, size, base), list(bytes(o.pack_nlri(neg))), list(bytes(o.index()))))
+        if (list(bytes(o.rd.pack_rd())), o.endpoint, o.offset, o.block_size, o.base) != (rd, ve, off, size, base):
+            problems.append(('vpls-accessors', 'VPLS accessors do not return what make_vpls was given', {'rd': rd, 've': ve, 'offset': off, 'size': size, 'base': base}))
+    for o in conf_nlris.get('VPLS', []):
+        vpls_enc.append(((list(bytes(o.rd.pack_rd())), o.endpoint, o.offset, o.block_size, o.base), list(bytes(o.pack_nlri(neg))), list(bytes(o.index()))))
+        objs.append(o)
+    for o in objs:
+        good = list(bytes(o.pack_nlri(neg)))
+        for data in (good, good + [rng.getrandbits(8) for _ in range(rng.randint(1, 4))], good[: rng.randint(0, 18)],
+                     [0, rng.choice([0, 16, 18, 20, 255])] + good[2:] + [rng.getrandbits(8) for _ in range(rng.choice([0, 1, 3]))],
+                     [0, 20] + good[2:] + [1, 2, 3], [rng.getrandbits(8) for _ in range(rng.randint(0, 24))]):
+            r, dec = unpack(AFI.l2vpn, SAFI.vpls, data)
+            vpls_dec.append((data, r))
+            if data is good and (dec is None or not (dec == o) or hash(dec) != hash(o) or dec.json() != o.json() or r[1]):
+                problems.append(('vpls-roundtrip', 'decode(encode(vpls)) != vpls', {'bytes': bytes(good).hex()}))
+    # ---- RTC
+    rtc_enc, rtc_dec = [], []
+    for i in range(n // 3):
+        origin = rng.choice([0, 1, 65535, 65536, 4294967295, rng.getrandbits(32)])
+        if i % 10 == 0:
+            o = RTC.make_rtc(ASN(origin), None)
+            rtb = None
+        else:
+            rtb = [rng.choice([0, 1, 2, 0x40, 0x41, 0x42, 0x80, 0xC0]), 2] + [rng.getrandbits(8) for _ in range(6)]
+            try:
+                o = RTC.make_rtc(ASN(origin), RouteTarget.unpack_attribute(bytes(rtb), None))
+            except Exception:
+                continue
+        good = list(bytes(o.pack_nlri(neg)))
+        rtc_enc.append((origin, rtb, good, list(bytes(o.index()))))
+        for data in (good + [rng.getrandbits(8) for _ in range(rng.choice([0, 0, 2, 13]))], good[: rng.randint(0, max(0, len(good) - 1))],
+                     [rng.choice([0, 1, 31, 32, 33, 64, 95, 96, 97, 255])] + good[1:] + [rng.getrandbits(8) for _ in range(rng.choice([0, 12]))],
+                     good[:5] + [rng.getrandbits(8)] + good[6:], [rng.getrandbits(8) for _ in range(rng.randint(0, 16))]):
+            r, dec = unpack(AFI.ipv4, SAFI.rtc, data)
+            rtc_dec.append((data, r))
+        r, dec = unpack(AFI.ipv4, SAFI.rtc, good)
+        if dec is None or not (dec == o) or hash(dec) != hash(o) or str(dec) != str(o) or dec.json() != o.json() or bytes(dec.pack_nlri(neg)) != bytes(good):
+            problems.append(('rtc-roundtrip', 'decode(encode(rtc)) != rtc', {'bytes': bytes(good).hex()}))
+    # ---- EVPN framing
+    evpn_dec = []
+    registered = set(EVPN.registered_evpn)
+    for _ in range(n):
+        code = rng.choice([0, 1, 2, 3, 4, 5, 6, 7, 100, 255, rng.getrandbits(8)])
+        ln = rng.choice([0, 1, 2, 10, 23, 25, 33, 255, rng.getrandbits(8)])
+        have = rng.choice([ln, ln, ln + rng.randint(1, 5), max(0, ln - rng.randint(1, 3)), 0])
+        data = [code, ln] + [rng.getrandbits(8) for _ in range(have)]
+        if rng.random() < 0.05:
+            data = data[: rng.randint(0, 1)]
+        try:
+            r, dec = unpack(AFI.l2vpn, SAFI.evpn, data)
+        except Exception as exc:  # type-specific decoders are not this model's subject; only the framing is judged
+            continue
+        evpn_dec.append((code not in registered, data, r))
+    # ---- attribute values
+    nums_dec, agg_dec, orig_dec = [], [], []
+    by_code = {int(a): k for (a, f), k in Attribute.registered_attributes.items()}
+    neg4 = Negotiated._create_unset(); neg4.asn4 = True
+    neg2 = Negotiated._create_unset(); neg2.asn4 = False
+
+    def value_of(o, ng):
+        raw = bytes(o.pack_attribute(ng))
+        return raw[4:] if raw[0] & 0x10 else raw[3:]
+
+    for code, w in ((8, 4), (10, 4), (16, 8), (32, 12)):
+        for _ in range(n // 6):
+            k = rng.choice([0, 1, 2, 3, 21, 22, 32, 64, 65])
+            items = set()
+            while len(items) < k:
+                items.add(bytes(rng.getrandbits(8) for _ in range(w)))
+            data = b''.join(sorted(items) if code != 10 else list(items))
+            if rng.random() < 0.3:
+                data = data + bytes(rng.getrandbits(8) for _ in range(rng.randint(1, w - 1)))
+            try:
+                o = by_code[code].unpack_attribute(data, neg4)
+                v = value_of(o, neg4) if len(data) else b''
+                res = [int.from_bytes(v[i : i + w], 'big') for i in range(0, len(v), w)]
+                if v != data:
+                    problems.append((f'attr-value-reencode:{code}', 'encode(decode(value)) != value for a sorted, duplicate-free value', {'code': code, 'value': data.hex()}))
+            except Exception:
+                res = None
+            nums_dec.append((w, list(data), res))
+    for _ in range(n // 6):
+        asn4 = rng.random() < 0.5
+        data = bytes(rng.getrandbits(8) for _ in range(rng.choice([8, 6, 8, 6, 0, 4, 7, 9])))
+        try:
+            o = by_code[7].unpack_attribute(data, neg4 if asn4 else neg2)
+            res = (int(o.asn), list(bytes(o.speaker.pack_ip())))
+        except Exception:
+            res = None
+        agg_dec.append((asn4, list(data), res))
+        data = bytes(rng.getrandbits(8) for _ in range(rng.choice([4, 4, 0, 3, 5, 16])))
+        try:
+            o = by_code[9].unpack_attribute(data, neg4)
+            res2 = list(value_of(o, neg4))
+        except Exception:
+            res2 = None
+        orig_dec.append((list(data), res2))
+
+    def lit(kind, c):
+        if kind == 'vpls_enc':
+            (rd, ve, off, size, base), b, idx = c
+            return f'(mkV {zlist(rd)} {ve} {off} {size} {base}, {zlist(b)}, {zlist(idx)})'
+        if kind in ('vpls_dec', 'rtc_dec'):
+            return f'({zlist(c[0])}, {_coq_ob(c[1])})'
+        if kind == 'rtc_enc':
+            return f'({c[0]}, {coq_opt(c[1])}, {zlist(c[2])}, {zlist(c[3])})'
+        if kind == 'evpn_dec':
+            return f'({"true" if c[0] else "false"}, {zlist(c[1])}, {_coq_ob(c[2])})'
+        if kind == 'nums_dec':
+            return f'({c[0]}%nat, {zlist(c[1])}, {coq_opt(c[2])})'
+        if kind == 'agg_dec':
+            e = 'None' if c[2] is None else f'(Some ({c[2][0]}, {zlist(c[2][1])}))'
+            return f'({"true" if c[0] else "false"}, {zlist(c[1])}, {e})'
+        return f'({zlist(c[0])}, {coq_opt(c[1])})'
+
+    groups = [
+        ('vpls_enc', 'vpls * list Z * list Z', 'vpls_enc_ok', vpls_enc), ('vpls_dec', 'list Z * option (list Z * list Z)', 'vpls_dec_ok', vpls_dec),
+        ('rtc_enc', 'Z * option (list Z) * list Z * list Z', 'rtc_enc_ok', rtc_enc), ('rtc_dec', 'list Z * option (list Z * list Z)', 'rtc_dec_ok', rtc_dec),
+        ('evpn_dec', 'bool * list Z * option (list Z * list Z)', 'evpn_dec_ok', evpn_dec),
+        ('nums_dec', 'nat * list Z * option (list Z)', 'nums_dec_ok', nums_dec),
+        ('agg_dec', 'bool * list Z * option (Z * list Z)', 'agg_dec_ok', agg_dec), ('orig_dec', 'list Z * option (list Z)', 'orig_dec_ok', orig_dec),
+    ]
+    shards = []
+    for kind, ty, fn, cases in groups:
+        for chunk in common.chunked(list(range(len(cases))), 250):
+            shards.append((kind, ty, fn, cases, chunk))
+
+    def defs(sh):
+        kind, ty, fn, cases, chunk = sh
+        return (f'Definition cases : list ({ty}) := [' + ';\n'.join(lit(kind, cases[i]) for i in chunk) + f'].\nEval vm_compute in (bad {fn} cases 0).\n')
+
+    res = common.eval_cases(HEADER_X, defs, shards, 'c15_x')
+    ran = all(rc == 0 for rc, _, _ in res)
+    bad = collections.defaultdict(list)
+    for sh, (rc, out, parsed) in zip(shards, res):
+        if rc == 0 and parsed:
+            bad[sh[0]] += [sh[3][sh[4][j]] for j in common.nat_list_of(parsed[0])]
+    logs = [out for rc, out, _ in res if rc != 0]
+    counts = {kind: len(cases) for kind, _, _, cases in groups}
+    return ran, logs, counts, bad, problems
+
+
 # ------------------------------------------------------------------------------- the check
 
 
@@ -1068,6 +1288,7 @@ def check(tier, seed):
     covered_fams = collections.Counter()
     covered_attrs = collections.Counter()
     n_b = 0
+    conf_nlris = {}
     t2 = time.time()
     b_notes = {}
     child_items = []
@@ -1104,6 +1325,7 @@ def check(tier, seed):
                     continue
                 n_b += 1
                 covered_fams[fam] += 1
+                conf_nlris.setdefault(cls, []).append(route.nlri)
                 case['update'] = obs['pack1'].hex()
                 n2 = obs['nlri2']
                 if type(n2) is not type(route.nlri) and not isinstance(n2, type(route.nlri)) and not isinstance(route.nlri, type(n2)):
@@ -1260,6 +1482,30 @@ def check(tier, seed):
         import traceback
 
         run.obligation('boundary-length pass ran', False, traceback.format_exc()[-1500:])
+
+    # ---------------------------------------------------------------- (D) VPLS / RTC / EVPN framing / attribute values
+    try:
+        t4 = time.time()
+        xran, xlogs, xcounts, xbad, xproblems = structured_pass(run, rng, quick, conf_nlris)
+        run.obligation('model evaluation (vm_compute of Model_NlriX: VPLS, RTC, EVPN framing, attribute value decoders) ran', xran, '\n'.join(xlogs)[-2000:])
+        nbad = sum(len(v) for v in xbad.values())
+        first = next(((k, v[0]) for k, v in xbad.items() if v), None)
+        run.obligation(
+            'correspondence: VPLS make/accessors/index/unpack, RTC make/accessors/index/unpack, EVPN framing, COMMUNITY / CLUSTER_LIST / '
+            f'EXTENDED / LARGE value decoders, AGGREGATOR, ORIGINATOR_ID = Model_NlriX on {sum(xcounts.values())} cases {xcounts}',
+            nbad == 0, f'{nbad} disagreements {({k: len(v) for k, v in xbad.items()})}; first: {str(first)[:600]}')
+        for sig, what, case in xproblems[:20]:
+            fail(sig, what, case)
+        for fam in ('l2vpn/vpls', 'ipv4/rtc', 'l2vpn/evpn'):
+            covered_fams[fam] += 1
+        run.coverage['structured_families'] = dict(xcounts, wall_s=round(time.time() - t4, 1),
+                                                   rule='factory-built and conf VPLS routes, RTC with every route-target flag combination and the wildcard, '
+                                                        'EVPN frames of registered and unregistered route types, value lists of 0..65 elements incl. lengths '
+                                                        'that are not a multiple of the element width; decoders also fed truncated, over-long and random bytes')
+    except Exception:
+        import traceback
+
+        run.obligation('structured-family pass (VPLS / RTC / EVPN / attribute values) ran', False, traceback.format_exc()[-1500:])
 
     uncovered_f = [f for f in fams if not covered_fams.get(f)]
     uncovered_a = [a for a in attr_ids if not covered_attrs.get(a)]
